@@ -8,13 +8,15 @@
 (*              another class at one position.  Sharded over processes by  *)
 (*              length; sampled by Stride in the quick tier.               *)
 (*   InitRk   : routing keys of 1..3 components with bound-value layouts.  *)
+(*   InitRkPartial : statements binding only a proper subset of the key    *)
+(*              columns (the rest are literals): no routing key.           *)
 (*   InitCmp  : ordered pairs of boundary token strings (Murmur3, Random). *)
 (*   InitOrd  : ordered pairs of byte strings (order-preserving).          *)
 (*   InitSeq  : scripts on ONE Query / Batch value: bind, get key, re-bind, *)
 (*              get key, explicit routing key set and cleared, statements   *)
 (*              appended to a batch between calls.                          *)
 (***************************************************************************)
-EXTENDS Token, Json, IOUtils
+EXTENDS Token, Json, IOUtils, FiniteSets
 
 VARIABLE c
 
@@ -77,6 +79,21 @@ RkValues(x) == IF x.lay = 1 THEN RkComps(x) ELSE <<Decoy>> \o Rev(RkComps(x))
 RkIdx(x) == IF x.lay = 1 THEN [i \in 1 .. x.n |-> i] ELSE [i \in 1 .. x.n |-> x.n + 2 - i]
 EmitRk == PrintT(<<"CASE", ToJson([k |-> "rk", vals |-> RkValues(c), idx |-> RkIdx(c),
                                    out |-> RoutingKey(RkValues(c), RkIdx(c))])>>)
+
+\* statements that bind only SOME partition-key columns (the others are literals): layout 3.
+\* m: the set of key positions that are bound (a proper subset, possibly empty); the bound values follow a
+\* decoy value in key order
+InitRkPartial ==
+  c \in {x \in [n : 2 .. 3, a : Small, b : Small, d : {1, 2, 9}, m : SUBSET (1 .. 3)] :
+           /\ (x.n < 3 => x.d = 1)
+           /\ (x.n = 3 => x.a \in {1, 2, 9} /\ x.b \in {1, 2, 9})
+           /\ x.m \subseteq 1 .. x.n /\ x.m # 1 .. x.n}
+PartComps(x) == IF x.n = 2 THEN <<Palette[x.a], Palette[x.b]>> ELSE <<Palette[x.a], Palette[x.b], Palette[x.d]>>
+BoundSeq(x) == SelectSeq([i \in 1 .. x.n |-> i], LAMBDA i : i \in x.m)          \* bound key positions, ascending
+PartValues(x) == <<Decoy>> \o [j \in 1 .. Len(BoundSeq(x)) |-> PartComps(x)[BoundSeq(x)[j]]]
+PartIdx(x) == [i \in 1 .. x.n |-> IF i \in x.m THEN 1 + Cardinality({j \in x.m : j <= i}) ELSE 0]
+EmitRkPartial == PrintT(<<"CASE", ToJson([k |-> "rk", vals |-> PartValues(c), idx |-> PartIdx(c),
+                                          out |-> RoutingKeyOf(PartValues(c), PartIdx(c))])>>)
 
 \* ------------------------------------------------------------------ token strings
 \* signed 64-bit boundary values (big-endian bytes) and non-negative 128-bit values <= 2^127
